@@ -324,3 +324,24 @@ theorem auto_rotate {w : Int → Int} {P : Int → Prop} (hw : NegOn w P) (g p :
     rotate_coeffZ hw p a ha hn,
     rotate_coeffZ hw (p * g) _ (auto_allP hw g a ha) (by rw [la]; exact hn),
     show i * g - p * g = (i - p) * g by ring, auto_coeffZ hw g a hn ha hg]
+
+/-- the in-place form with explicit scratch content: for an admissible `g` the scratch polynomial is
+irrelevant and the result is `σ_g` on every limb -/
+theorem autoAssignScr_eq {w : Int → Int} {P : Int → Prop} (hw : NegOn w P) (g : Int) (n : Nat) (hn : 0 < n)
+    (hg : GalOk g n) (res : Col) (hl : ∀ l ∈ res, l.length = n) (hp : ∀ l ∈ res, AllP P l) :
+    ∀ (pre : Col) (t : Poly), t.length = n → AllP P t →
+      (res.foldl (fun (acc : Col × Poly) rj =>
+        let t := znxAutomorphismIntoW w g acc.2 rj
+        (acc.1 ++ [t], t)) (pre, t)).1 = pre ++ res.map (znxAutomorphismW w g) := by
+  induction res with
+  | nil => intro pre t _ _; simp
+  | cons r rest ih =>
+    intro pre t ht hPt
+    have hr : r.length = n := hl r List.mem_cons_self
+    have hPr : AllP P r := hp r List.mem_cons_self
+    have e : znxAutomorphismIntoW w g t r = znxAutomorphismW w g r :=
+      autoInto_eq_auto hw g t r (by omega) (by rw [ht, hr]) hPt hPr (by rw [hr]; exact hg)
+    simp only [List.foldl_cons]
+    rw [e, ih (fun l h => hl l (List.mem_cons_of_mem _ h)) (fun l h => hp l (List.mem_cons_of_mem _ h))
+      (pre ++ [znxAutomorphismW w g r]) (znxAutomorphismW w g r) (by rw [auto_length, hr]) (auto_allP hw g r hPr)]
+    simp
